@@ -20,9 +20,12 @@ RULE = ("Release tables written as text (header in the file or `names` argument,
         "random column order, mult column present or absent, X/Y or lon/lat through a linear stub ll2xy, int/float/"
         "time extra columns declared as instance/particle variables, some with configured defaults, release_time "
         "particle variable) with several rows per time, mult in {0,1,2,5}, rows before start / at start / at stop / "
-        "after stop, forward and reversed, cold and warm start, discrete and continuous (frequency dt, 2dt, 3dt, "
+        "after stop, forward and reversed, cold and warm start, histories in which some or all particles die and are "
+        "removed (Model.update's order: clock, compactify, release) between releases, discrete and continuous (frequency dt, 2dt, 3dt, "
         "first file time before/at/after start); per step the appended particles (count, pid, release time, "
-        "position, extra values, order) are compared with the Coq model and with the oracle; a small stream of "
+        "position, extra values, order) are compared with the Coq model and with the oracle, and after every step "
+        "every pid released so far must still carry its row's values (particle variables by pid, instance variables "
+        "of the survivors); a small stream of "
         "unsorted / off-grid tables (outside the property's quantifier) ties the blind cursor of the model to the "
         "code; thorough tier adds end-to-end runs (first appearance of every pid in the output file). "
         "Non-trivial = distinct case with >= 2 distinct release times in the window, or some mult != 1, or rows "
@@ -40,6 +43,7 @@ ASSUMPTIONS = ["release times on the model time grid and in simulation order; co
                "(a scheduled row whose step equals Nsteps exists only when dt does not divide the duration)"]
 SCALE = 1024
 EXTRA_STEPS = 2
+BAD = -987654321
 EPOCH = rf.EPOCH
 
 
@@ -170,10 +174,33 @@ def run_real(desc, ctx):
     names = ["X", "Y", "Z"] + [e[0] for e in desc["extras"]]
     steps, problems = [], []
     nrun = int(timer.Nsteps) + EXTRA_STEPS  # a little beyond the stop time: nothing may enter there
+    kills = desc.get("kills") or {}
+    pset = set(state.particle_variables)
+
+    def cell(c, inst_j, pid):
+        """value of variable c for one particle: instance variables by row, particle variables by pid"""
+        try:
+            return code(state[c][pid] if c in pset else state[c][inst_j], types[c])
+        except (IndexError, ValueError, TypeError) as e:
+            problems.append(f"variable {c} unreadable for pid {pid}: {type(e).__name__} {e}")
+            return BAD
+
+    def rt_of(pid):
+        if not desc["has_rt"]:
+            return 0
+        try:
+            return secs(state["release_time"][pid])
+        except (IndexError, ValueError, TypeError) as e:
+            problems.append(f"release_time unreadable for pid {pid}: {type(e).__name__} {e}")
+            return BAD
+
+    snaps = []
     for n in range(nrun):
+        # the order of Model.update: clock, removal of the dead, release
         timer.update()
         if int(timer.step) != n:
             problems.append(f"timer.step {timer.step} at loop step {n}")
+        state.compactify()
         n0, npid0 = len(state), int(state.npid)
         try:
             rel.update()
@@ -184,19 +211,31 @@ def run_real(desc, ctx):
         k = len(state) - n0
         rows = []
         for j in range(n0, n0 + k):
-            row = {"rt": secs(state["release_time"][j]) if desc["has_rt"] else 0,
-                   "vals": [code(state[c][j], types[c]) for c in names]}
-            rows.append(row)
+            pid = int(state.pid[j])
+            rows.append({"rt": rt_of(pid), "vals": [cell(c, j, pid) for c in names]})
         if k:
             if [int(p) for p in state.pid[n0:]] != list(range(npid0, npid0 + k)):
                 problems.append(f"step {n}: new pids {state.pid[n0:].tolist()} not {npid0}..{npid0 + k - 1}")
             if not (bool(np.all(state.alive[n0:])) and bool(np.all(state.active[n0:]))):
                 problems.append(f"step {n}: new particles not alive/active")
         for c in state.variables:
-            if len(state[c]) != (int(state.npid) if c in state.particle_variables else len(state)):
-                problems.append(f"step {n}: variable {c} has length {len(state[c])}")
+            if len(state[c]) != (int(state.npid) if c in pset else len(state)):
+                problems.append(f"step {n}: variable {c} has length {len(state[c])}, "
+                                f"{'npid' if c in pset else 'number of instances'} is "
+                                f"{int(state.npid) if c in pset else len(state)}")
         steps.append(rows)
-    return {"exit": False, "steps": steps, "index": int(rel._index), "problems": problems, "nsteps": nrun}
+        # every particle released so far / still present, with the values it carries now
+        npid = int(state.npid)
+        snaps.append({"present": [int(q) for q in state.pid],
+                      "inst": [[cell(c, j, int(state.pid[j])) for c in names if c not in pset] for j in range(len(state))],
+                      "pvar": [[rt_of(q)] + [cell(c, 0, q) for c in names if c in pset] for q in range(npid)]})
+        rule = kills.get(str(n))
+        if rule is not None and len(state):
+            pids = np.asarray(state.pid)
+            mask = np.ones(len(pids), bool) if rule == "all" else (pids % rule[0] == rule[1])
+            state.alive[mask] = False
+    return {"exit": False, "steps": steps, "index": int(rel._index), "problems": problems, "nsteps": nrun,
+            "snaps": snaps, "inames": [c for c in names if c not in pset], "pnames": [c for c in names if c in pset]}
 
 
 # ---- the property text, computed from the table -----------------------------------------------
@@ -273,10 +312,45 @@ def oracle(desc, obs):
                 return f"step {n}: particle {j} carries {g['vals']} but its release row says {w['vals']} (codes *{SCALE})"
             if hasrt and g["rt"] != w["rt"]:
                 return f"step {n}: particle {j} has release_time {g['rt']} instead of {w['rt']}"
+    msg = check_history(desc, obs, sched)
+    if msg:
+        return msg
     total = sum(len(s) for s in obs["steps"])
     want_total = sum(len(v) for n, v in sched.items() if 0 <= n < obs["nsteps"])
     if total != want_total:
         return f"{total} particles released in all, {want_total} scheduled inside the window"
+    return None
+
+
+def check_history(desc, obs, sched):
+    """every released pid keeps its row's values: particle variables by pid for all pids ever released,
+    instance variables for the particles still present; exactly the killed ones are gone"""
+    names = ["X", "Y", "Z"] + [e[0] for e in desc["extras"]]
+    ipos = [names.index(c) for c in obs["inames"]]
+    ppos = [names.index(c) for c in obs["pnames"]]
+    kills = desc.get("kills") or {}
+    book, alive = [], []  # book[pid] = scheduled row of that pid
+    for n, snap in enumerate(obs["snaps"]):  # aligned with the steps (a StopIteration is reported before)
+        for w in sched.get(n, []):
+            alive.append(len(book))
+            book.append(w)
+        if snap["present"] != alive:
+            return f"after step {n}: particles present {snap['present'][:12]} but released-and-not-removed are {alive[:12]}"
+        for j, pid in enumerate(alive):
+            want = [book[pid]["vals"][q] for q in ipos]
+            if snap["inst"][j] != want:
+                return (f"after step {n}: particle pid {pid} carries {dict(zip(obs['inames'], snap['inst'][j]))} "
+                        f"but its release row says {dict(zip(obs['inames'], want))} (codes *{SCALE})")
+        if len(snap["pvar"]) != len(book):
+            return f"after step {n}: particle variables hold {len(snap['pvar'])} particles, {len(book)} were released"
+        for pid, got in enumerate(snap["pvar"]):
+            want = [book[pid]["rt"] if desc["has_rt"] else 0] + [book[pid]["vals"][q] for q in ppos]
+            if got != want:
+                return (f"after step {n}: particle variables of pid {pid} are {dict(zip(['release_time'] + obs['pnames'], got))} "
+                        f"but its release row says {dict(zip(['release_time'] + obs['pnames'], want))}")
+        rule = kills.get(str(n))
+        if rule is not None:
+            alive = [] if rule == "all" else [q for q in alive if q % rule[0] != rule[1]]
     return None
 
 
@@ -397,11 +471,23 @@ def gen_one(rng, mode=None):
     order = ["release_time"] + (["mult"] if has_mult else []) + cols
     if rng.random() < 0.5:
         rng.shuffle(order)
-    return {"k": "rel", "start": start, "stop": stop, "dt": dt, "rev": rev, "cont": cont, "freq": freq, "warm": warm,
+    d = {"k": "rel", "start": start, "stop": stop, "dt": dt, "rev": rev, "cont": cont, "freq": freq, "warm": warm,
             "header": rng.choice(["file", "names"]), "tsep": rng.choice(["T", "T", "quoted"]), "pos": pos,
             "ll": [rng.choice([1, 2, 3]), dyadic(rng, -4, 4, 2), rng.choice([1, 2, 4]), dyadic(rng, -4, 4, 2)],
             "grid_always": rng.random() < 0.5, "extras": extras, "defaults": defaults,
-            "has_rt": rng.random() < 0.6, "order": order, "rows": rows, "outside": None}
+            "has_rt": rng.random() < 0.6, "order": order, "rows": rows, "outside": None, "kills": {}}
+    # histories with deaths: particles marked dead after some steps are removed (compactify) before the next
+    # release; preferably everything dies between two release steps
+    if rng.random() < 0.6:
+        rsteps = sorted(n for n, v in expected(d)[1].items() if v and 0 <= n <= nst + 1)
+        for a, b in zip(rsteps, rsteps[1:]):
+            if rng.random() < 0.6:
+                d["kills"][str(rng.randint(a, b - 1))] = "all"
+        for n in range(nst + 2):
+            if str(n) not in d["kills"] and rng.random() < 0.15:
+                m = rng.choice([2, 3])
+                d["kills"][str(n)] = [m, rng.randrange(m)]
+    return d
 
 
 def gen_outside(rng):
@@ -480,7 +566,8 @@ def eval_e2e(desc, ctx):
         rows.sort(key=lambda r: r["pid"])
         steps.append(rows)
     nst = abs(stop - start) // dt
-    obs = {"exit": False, "steps": steps[:nst], "index": int(model.release._index), "problems": [], "nsteps": nst}
+    obs = {"exit": False, "steps": steps[:nst], "index": int(model.release._index), "problems": [], "nsteps": nst,
+           "snaps": [], "inames": [], "pnames": []}
     if len(steps) != nst:
         obs["problems"].append(f"{len(steps)} output records for {nst} steps")
     allp = [r["pid"] for s in steps for r in s]
